@@ -76,6 +76,8 @@ def generate(seed, tier):
         "graph": g.choice([0, 1, 2]),
         "remove_graph": g.choice([0, 1, 2]),
         "view": g.choice([0, 1, 2]),
+        "remove_context": g.choice([0, 0, 1]),
+        "iadd": g.choice([0, 0, 1]),
     }
     nsteps = g.randint(3, 40 if tier == "quick" else 70)
     model = {}
@@ -125,6 +127,13 @@ def generate(seed, tier):
             op["g"] = gi()
             op["as"] = g.choice(["id", "graph", "storedview"])
             model[op["g"]] = set()
+        elif kind == "remove_context":
+            op["g"] = gi()
+            model[op["g"]] = set()
+        elif kind == "iadd":
+            op["q"] = [tri() + [gi()] for _ in range(g.randint(1, 3))]
+            for q in op["q"]:
+                model.setdefault(q[3], set()).add(tuple(tuple(x) for x in q[:3]))
         elif kind == "view":
             nviews += 1
             op["v"] = nviews
@@ -380,6 +389,19 @@ def execute(trace, ctx):
             if gk != DEF:
                 created.discard(gk)
                 removed.add(gk)
+        elif k == "remove_context":
+            # empties the graph; whether it stays registered is not constrained
+            gk = gkey(op["g"])
+            cg.remove_context(Graph(store, gterm(op["g"])))
+            model[gk] = set()
+            created.discard(gk) if gk != DEF else None
+        elif k == "iadd":
+            ds2 = ds
+            ds2 += [(T(s), T(p), T(o), gterm(gi_)) for s, p, o, gi_ in op["q"]]
+            ctx.check(ds2 is ds, "C02.iadd-identity", "+= returned another object")
+            for s, p, o, gi_ in op["q"]:
+                model.setdefault(gkey(gi_), set()).add((skey(s), skey(p), skey(o)))
+                removed.discard(gkey(gi_))
         elif k == "view":
             gi = op["g"]
             gk = gkey(gi)
